@@ -206,11 +206,8 @@ var spinShapes = []string{
 
 type halt struct{}
 
-func implInterrupt(shape int) string {
-	if shape < 0 || shape >= len(spinShapes) {
-		return "bad-shape"
-	}
-	vm := otto.New()
+// spinOnce runs a spinning script on vm and sends it one interrupt; how did Run end?
+func spinOnce(vm *otto.Otto, src string, fn func()) string {
 	vm.Interrupt = make(chan func(), 1)
 	done := make(chan string, 1)
 	go func() {
@@ -224,21 +221,49 @@ func implInterrupt(shape int) string {
 				return
 			}
 		}()
-		_, err := vm.Run(spinShapes[shape])
+		_, err := vm.Run(src)
 		done <- "returned:" + strings.ReplaceAll(fmt.Sprint(err), " ", "_")
 	}()
 	time.Sleep(5 * time.Millisecond)
-	vm.Interrupt <- func() { panic(halt{}) }
+	vm.Interrupt <- fn
 	select {
 	case r := <-done:
 		vm.Interrupt = nil
-		if strings.Contains(spinShapes[shape], "try") && (r == "halted" || strings.HasPrefix(r, "returned:")) {
+		if strings.Contains(src, "try") && (r == "halted" || strings.HasPrefix(r, "returned:")) {
 			r = "halted-or-caught"
 		}
-		return r + ";" + restTok(vm) + ";" + followTok(vm)
+		return r
 	case <-time.After(3 * time.Second):
 		return "timeout"
 	}
+}
+
+func implInterrupt(shape int) string {
+	if shape < 0 || shape >= len(spinShapes) {
+		return "bad-shape"
+	}
+	vm := otto.New()
+	r := spinOnce(vm, spinShapes[shape], func() { panic(halt{}) })
+	if r == "timeout" {
+		return r
+	}
+	out := r + ";" + restTok(vm) + ";" + followTok(vm)
+	// the SAME runtime again (the property: "the runtime stays consistent and later scripts run
+	// normally" includes being interruptible again): a non-panicking interrupt function is called and
+	// the bounded script completes; then another spin is halted
+	called := false
+	vm.Interrupt = make(chan func(), 1)
+	vm.Interrupt <- func() { called = true }
+	v, err := vm.Run(`var __n = 0; for (var __i = 0; __i < 50; __i++) { __n += __i } __n`)
+	vm.Interrupt = nil
+	if err != nil || v.String() != "1225" || !called {
+		return out + fmt.Sprintf(";again:benign-interrupt-lost(called=%v,err=%v)", called, err != nil)
+	}
+	second := spinOnce(vm, spinShapes[(shape+7)%len(spinShapes)], func() { panic(halt{}) })
+	if second == "halted-or-caught" {
+		second = "halted"
+	}
+	return out + ";again:" + second
 }
 
 func implC18(line string) string {
